@@ -13,7 +13,7 @@
    WF    s : all three.  op_ok : tempo / etempo values > 0, beats_per_bar values > 0, numbers. *)
 From Coq Require Import ZArith QArith List.
 Require Import SC3.lib.PyNum SC3.lib.TempoState SC3.gen.Gen_builtins SC3.gen.Gen_tempo SC3.model.Tempo.
-Require Import SC3.proofs.C12_num SC3.proofs.C12_tempo.
+Require Import SC3.proofs.C12_num SC3.proofs.C12_tempo SC3.proofs.C12_history.
 Import ListNotations.
 Open Scope Q_scope.
 
@@ -110,6 +110,48 @@ Theorem play_quant_schedules_on_grid_partial : forall (s : clockstate) (now : nu
   wake_seconds s (play_beat s now a) = py_beats2secs s (py_next_time_on_grid s now (fst (as_quant a)) (snd (as_quant a))).
 Proof. exact play_wakes_on_grid. Qed.
 
+(* FULL STRENGTH (deepening round).  A routine played with a Quant on the clock, followed by ANY history h
+   of tempo / etempo / beats / beats_per_bar changes (each at its own logical time) before it wakes up.
+   The scheduler side is model/Tempo.v: ClockTask keeps the beat it is due at and its key in seconds;
+   a setter whose REGENERATED flag <setter>_retimes is true (tempo, etempo, beats in the repaired sc3;
+   read off the source by the translator) files it again under the new beats2secs(beat)  -- in RT the
+   clock's queue is keyed by the beat itself, which gives the same two numbers.  Then:
+     - no setter raises, the clock stays well formed;
+     - the task is still due at exactly next_time_on_grid(quant.quant, quant.phase) as computed at play time,
+       and its wake-up second is beats2secs of that beat IN THE STATE OF THE WAKE-UP;
+     - so the routine first runs when clock.beats reads exactly that beat, whatever happened in between;
+     - it is not woken before "now": if the clock's beat at a logical second now' is not past the due beat,
+       now' is not past the wake-up second.
+   What does NOT hold (and is not claimed): after a beats_per_bar change the grid origin moves, so the due
+   beat is on the grid of play time, not necessarily on the new one; after `beats = v` beyond the due beat the
+   wake-up second lies in the past of the thread that made the change. *)
+Theorem play_quant_schedules_on_grid : forall (s : clockstate) (now : num) (a : quantarg) (h : list op),
+  WF s -> 0 < toQ (tempo s) -> Forall op_ok h ->
+  ok (py_next_time_on_grid s now (fst (as_quant a)) (snd (as_quant a))) ->
+  exists s' p', run_pend s h (sched_abs_nrt s (play_beat s now a)) = Some (s', p') /\ run s h = Some s' /\ WF s' /\
+    p_beats p' = py_next_time_on_grid s now (fst (as_quant a)) (snd (as_quant a)) /\
+    p_secs p' = py_beats2secs s' (p_beats p') /\
+    val (wake_beat_of s' p') (toQ (py_next_time_on_grid s now (fst (as_quant a)) (snd (as_quant a)))) /\
+    (forall now', ok now' -> toQ (py_beats s' now') <= toQ (p_beats p') -> toQ now' <= toQ (p_secs p')).
+Proof. exact play_then_history. Qed.
+
+(* --- histories, with the logical time of each change as data -------------------------------
+   integrate folds the changes over the ideal piecewise-affine clock (T, B, V) = "beat B at second T,
+   V beats per second since":  tempo/etempo at time t keep the beat of t and change V;  beats = v at t
+   makes the beat of t equal v;  a meter change leaves it alone.  After ANY history made of valid changes
+   the real clock state (regenerated setters, `run`) is well formed, reads at every second exactly the
+   beat of the ideal clock (so beats advance at the current tempo between changes and are continuous /
+   reset exactly at the changes), and beats<->seconds are mutually inverse. *)
+Theorem history_consistent : forall (h : list op) (s : clockstate), WF s -> 0 < toQ (tempo s) -> Forall op_ok h ->
+  exists s', run s h = Some s' /\ WF s' /\ 0 < toQ (tempo s') /\
+    toQ (tempo s') == tl_V (integrate (tl_of s) h) /\
+    (forall x, ok x -> val (py_secs2beats s' x) (tl_beats (integrate (tl_of s) h) (toQ x))) /\
+    (forall b x, ok b -> ok x ->
+       val (py_secs2beats s' (py_beats2secs s' b)) (toQ b) /\ val (py_beats2secs s' (py_secs2beats s' x)) (toQ x)) /\
+    (forall x d, ok x -> ok d ->
+       val (py_secs2beats s' (nadd x d)) (toQ (py_secs2beats s' x) + toQ d * toQ (tempo s'))).
+Proof. exact history_spec. Qed.
+
 (* --- bars ---------------------------------------------------------------------------------- *)
 Theorem bars_beats_inverse : forall (s : clockstate) (b r : num), Typed s -> MInv s -> ok b -> ok r ->
   val (py_bars2beats s (py_beats2bars s b)) (toQ b) /\ val (py_beats2bars s (py_bars2beats s r)) (toQ r).
@@ -174,7 +216,23 @@ Proof. vm_compute. reflexivity. Qed.
 Example ex_play : canon (wake_beat ex_clock (play_beat ex_clock (F 1) (QPair (F (3 # 2)) (F (-1 # 2))))) = (1, 9, 4)%Z.
 Proof. vm_compute. reflexivity. Qed.
 
+(* the ideal clock of the example history: after tempo 4 at 3/4 s, meter, beats = 7 at 9/8 s, etempo 1/2 at 2 s
+   the beat at second 4 is 7 + (2 - 9/8)*4 + (4 - 2)/2 = 23/2 -- and the model state says the same *)
+Example ex_integrate :
+  Qeq_bool (tl_beats (integrate (tl_of ex_clock)
+     [OTempo (F (3 # 4)) (I 4); OMeter (F 1) (F (5 # 2)); OBeats (F (9 # 8)) (I 7); OEtempo (F 2) (F (1 # 2))]) 4) (23 # 2) = true.
+Proof. vm_compute. reflexivity. Qed.
+(* played with Quant(3/2, -1/2) at 1 s (due at beat 9/4), then tempo 8 at 17/16 s and beats += at 9/8 s: still wakes at beat 9/4 *)
+Example ex_play_history :
+  option_map (fun sp => (canon (wake_beat_of (fst sp) (snd sp)), canon (p_secs (snd sp))))
+    (run_pend ex_clock [OTempo (F (17 # 16)) (I 8); OMeter (F (17 # 16)) (I 2); OBeats (F (9 # 8)) (F (2 # 1))]
+       (sched_abs_nrt ex_clock (play_beat ex_clock (F 1) (QPair (F (3 # 2)) (F (-1 # 2))))))
+  = Some ((1, 9, 4), (1, 37, 32))%Z.
+Proof. vm_compute. reflexivity. Qed.
+
 Print Assumptions beats_secs_inverse.
 Print Assumptions TInv_all_histories.
 Print Assumptions grid_minimal.
 Print Assumptions meter_change_rebases.
+Print Assumptions play_quant_schedules_on_grid.
+Print Assumptions history_consistent.
